@@ -145,6 +145,7 @@ class Repo:
         self.functions: dict[str, FuncInfo] = {}  # by qualname
         self.classes_by_name: dict[str, list] = {}
         self.consulted: set[str] = set()
+        self.accessed: set[str] = set()  # qualified names of the functions whose AST a checker fetched
         self._parse_all()
         self._resolve_imports()
         self._resolve_classes()
@@ -368,6 +369,7 @@ class Repo:
         if qualname not in self.functions:
             raise AnchorMissing(f"function {qualname} not found")
         self.consulted.add(self.functions[qualname].file)
+        self.accessed.add(self.functions[qualname].qualname)
         return self.functions[qualname]
 
     def has_func(self, qualname):
@@ -381,6 +383,7 @@ class Repo:
         if f is None:
             raise AnchorMissing(f"method {cls_qualname}.{name} not found")
         self.consulted.add(f.file)
+        self.accessed.add(f.qualname)
         return f
 
     def lookup_method(self, ci: ClassInfo, name: str, start_after: ClassInfo = None) -> Optional[FuncInfo]:
@@ -392,6 +395,7 @@ class Repo:
                 mro = start_after.mro[1:]
         for c in mro:
             if name in c.methods:
+                self.accessed.add(c.methods[name].qualname)
                 return c.methods[name]
         return None
 
